@@ -185,7 +185,7 @@ def execute(trace, ctx=None):
                             answers["as_list[i]"] = col[j]
                             answers["read_candle"] = ind.read_candle(candles[j], nm)
                             answers["reading_by_candle"] = reading_by_candle(candles[j], nm)
-                            if m.kind == "hexital" and nm not in ("close", "high", "volume"):
+                            if m.kind == "hexital" and nm not in CANDLE_ATTRS:
                                 # (a price field through Hexital.reading is by definition the default
                                 # manager's, which need not be this member's manager)
                                 answers["Hexital.reading(+i)"] = m.subject.reading(nm, j)
@@ -225,7 +225,10 @@ def execute(trace, ctx=None):
                     trailing += 1
                 if got_count != trailing:
                     fail("latest-disagrees", slot, "Indicator.reading_count", {"got": got_count, "want": trailing, "stage": stage})
-                if m.kind == "hexital":
+                if m.kind == "hexital" and own not in CANDLE_ATTRS:
+                    # (a member NAMED like a candle attribute - Amorph over positive/negative - resolves to
+                    # that attribute on whichever manager Hexital.reading falls through to: the candle
+                    # attribute name space is shared by design, not an accessor disagreement)
                     hx = m.subject
                     try:
                         h_read, h_prev, h_has = hx.reading(own), hx.prev_reading(own), hx.has_reading(own)
